@@ -16,6 +16,10 @@ for m in ms:
         have.setdefault(m["rule"], []).append(m["id"])
     for r in (m.get("rules") or {}).values():
         have.setdefault(r, []).append(m["id"])
+for mp in glob.glob(os.path.join(VERIF, "seeded", "*", "meta.json")):
+    m = json.load(open(mp))
+    for r in m.get("caught_by_rules", []):
+        have.setdefault(r, []).append("seeded/" + os.path.basename(os.path.dirname(mp)))
 missing = [r for r in sorted(rules) if r not in have]
 for r in sorted(rules):
     print("%-28s %-22s %d mutant(s)" % (r, ",".join(sorted(rules[r])), len(have.get(r, []))))
